@@ -703,6 +703,16 @@ where
                             .with(|p| p.borrow_mut().take())
                             .unwrap_or_else(|| "?".into());
                         let sig = panic_signature(&p);
+                        // a panic raised by the harness's own code (generator ran dry, internal assertion) says
+                        // nothing about the library: it invalidates the run (exit 2), it is never a violation
+                        let own = p.rsplit_once(" @ ").map_or(false, |(_, loc)| loc.starts_with("src/") || loc.contains("/verif/harness/src/"));
+                        if own {
+                            rep.count(&format!("SELFCHECK-FAILED.harness-panic:{}", sig));
+                            if rep.samples.len() < 6 {
+                                rep.samples.push(jobj(&[("harness_panic", jstr(&p)), ("stage", jstr(stage)), ("index", this.to_string())]));
+                            }
+                            continue;
+                        }
                         let mut ctx = Ctx {
                             cfg,
                             stage,
